@@ -368,6 +368,13 @@ Lemma enum_54 : enum_ok F44.f54 sides = true. Proof. vvf. Qed.
 Lemma enum_434 : enum_ok F44.f434 [49; 50] = true. Proof. vvf. Qed.
 Lemma enum_123 : enum_ok F44.f123 [89; 78] = true. Proof. vvf. Qed.
 
+Lemma member_not_created st : In st all_statuses -> st <> CREATED -> fix_status st = true.
+Proof.
+  intros I NE. unfold fix_status, mem. apply andb_true_iff. split.
+  - apply existsb_exists. exists st. split; [exact I|apply N.eqb_refl].
+  - apply negb_true_iff. now apply N.eqb_neq.
+Qed.
+
 Lemma fix_status_in st : fix_status st = true -> In st fix_statuses.
 Proof.
   unfold fix_status, fix_statuses, mem. intros H. apply andb_true_iff in H as (H1 & H2).
@@ -450,10 +457,11 @@ Qed.
 
 Lemma cancel_reject_validates mt c og st m :
   fix_cxlrep_reject_msg mt (Some c) (Some og) st = ROk m ->
-  valid_string c = true -> valid_string og = true -> fix_status st = true ->
+  valid_string c = true -> valid_string og = true -> In st all_statuses ->
   validate44 (render no_numbers [57] m) = SM.Ok.
 Proof.
-  intros H Vc Vo Vs. apply reject_spec in H as (c' & og' & r & E1 & E2 & -> & R).
+  intros H Vc Vo Is. apply reject_spec in H as (c' & og' & r & E1 & E2 & NC & -> & R).
+  pose proof (member_not_created _ Is NC) as Vs.
   inversion E1; inversion E2; subst c' og'.
   assert (Ir : In r [49; 50]) by (destruct R as [(_ & ->)|(_ & ->)]; cbn; auto).
   unfold validate44, render.
@@ -474,7 +482,7 @@ Record exec_valid (o : order) (a : eargs) : Prop := mkEV {
   ev_oid : forall s, o_oid o = Some s -> valid_string s = true;
   ev_orig : forall s, a_orig a = Some s -> truthy (a_orig a) = true -> valid_string s = true;
   ev_exec : In (a_exec a) exec_types;
-  ev_status : fix_status (a_status a) = true;
+  ev_status : In (a_status a) all_statuses;
   ev_side : exists sd, o_side o = [sd] /\ In sd sides;
   ev_ticker : valid_string (o_ticker o) = true;
   ev_account : valid_string (o_account o) = true }.
@@ -486,7 +494,8 @@ Lemma exec_report_validates pr u t o a m t' :
   fix_exec_report_msg u t o a = Ok m t' -> exec_valid o a -> numbers_ok pr m ->
   validate44 (render pr [56] m) = SM.Ok.
 Proof.
-  intros H EV NO. destruct EV as [Vc Vi Vg Ve Vs (sd & Esd & Isd) Vt Va].
+  intros H EV NO. destruct EV as [Vc Vi Vg Ve Is (sd & Esd & Isd) Vt Va].
+  pose proof (member_not_created _ Is (exec_status_not_created _ _ _ _ _ _ H)) as Vs.
   apply exec_ok_inv in H as (clord & oq & cum & leaves & price & last & _ & C & _ & _ & TF & _ & _ & _ & _ & ->).
   specialize (Vc _ C).
   assert (Void : valid_string (order_id_text t o) = true).
@@ -604,8 +613,8 @@ Proof.
   split; [vm_compute; reflexivity|]. split; vm_compute; reflexivity.
 Qed.
 
-(* model-level counterparts of two recorded findings, now that the dictionary is in the model:
-   a renderer that leaves the FIX float layout (Python's str(float) below 1e-4: "1e-05"), and OrdStatus "Z" *)
+(* the hypothesis numbers_ok cannot be dropped: a renderer that leaves the FIX float layout (what str(float) printed
+   below 1e-4 before fixes/R12c+R12d: "1e-05") is refused by the dictionary *)
 Definition exponent_text (z : Z) : str := [49; 101; 45; 48; 53].
 
 Lemma exponent_text_refused :
@@ -613,14 +622,5 @@ Lemma exponent_text_refused :
     validate44 (render exponent_text [56] m) = SM.Exc SM.EFIXMessage.
 Proof.
   exists (msg_of (fix_exec_report_msg 4096 w_state w_live w_fill)), (state_of (fix_exec_report_msg 4096 w_state w_live w_fill)).
-  split; vm_compute; reflexivity.
-Qed.
-
-Lemma created_status_refused :
-  exists m t', fix_exec_report_msg 4096 w_state w_order (w_args (o_clord w_order) NEW CREATED None None) = Ok m t' /\
-    validate44 (render (print_q 12) [56] m) = SM.Exc SM.EFIXMessage.
-Proof.
-  exists (msg_of (fix_exec_report_msg 4096 w_state w_order (w_args (o_clord w_order) NEW CREATED None None))),
-         (state_of (fix_exec_report_msg 4096 w_state w_order (w_args (o_clord w_order) NEW CREATED None None))).
   split; vm_compute; reflexivity.
 Qed.
